@@ -26,6 +26,23 @@ Ltac inv_ok_step :=
   end.
 Ltac inv_ok := repeat inv_ok_step.
 
+(** A failing IbcRelay action never executes (so it never is part of an executed transaction). *)
+Lemma execute_relay_failing_never_ok s signer tx idx ca k s' :
+  fst ca = AIbcRelayFailing k -> execute_action s signer tx idx ca = Ok s' -> False.
+Proof.
+  destruct ca as [a cap]. cbn [fst]. intros -> H. unfold execute_action in H.
+  apply bind_ok in H. destruct H as [u [_ H]]. destruct cap; discriminate H.
+Qed.
+
+Lemma pfe_relay_failing_never_ok s signer tx idx ca k r :
+  fst ca = AIbcRelayFailing k -> pay_fees_and_execute s signer tx idx ca = Ok r -> False.
+Proof.
+  intros Ea H. unfold pay_fees_and_execute in H. cbv zeta in H. rewrite Ea in H.
+  apply bind_ok in H. destruct H as [[s1 e1] [_ H]].
+  destruct (execute_action s1 signer tx idx ca) as [s2|e] eqn:E; [|discriminate H].
+  exact (execute_relay_failing_never_ok _ _ _ _ _ _ _ Ea E).
+Qed.
+
 (** Balances. *)
 Lemma increase_balance_ok s x a amt s' :
   increase_balance s x a amt = Ok s' ->
